@@ -2,7 +2,7 @@
 # usage: tools/validate_seed.sh Cxx k   - re-validates sub-agent mutant /tmp/wt/Cxx/.mutant/k in its own worktree
 # (clean demo passes, tests pass with patch, demo fails with patch) and stores it as seeded/Cxx-k/.
 PID="$1"; K="$2"; WT="/tmp/wt/$PID"; M="$WT/.mutant/$K"
-OUT="$(dirname "$0")/../seeded/$PID-$K"
+OUT="/verif/seeded/$PID-$K"
 cd "$WT" || exit 3
 git checkout -q -- . ; git status --short | grep -v '^??' && { echo "worktree dirty"; exit 3; }
 PYTHONPATH="$WT/src" /venv/bin/python "$M/demo.py" >/tmp/vs-clean.log 2>&1; CLEAN=$?
